@@ -788,10 +788,28 @@ func (fv *FV) havocFramed(st *State, locs []modLoc, tag string) {
 	for _, m := range locs {
 		switch m.kind {
 		case "cell", "gcell":
+			// the cell itself, and its sub-cells: fields of a struct-typed cell, or the header components of a slice,
+			// string or interface (stored at field numbers >= 100000); a pointer or basic cell has none
+			sub := Eq(par(a), m.addr)
+			if m.typ != nil {
+				switch m.typ.Underlying().(type) {
+				case *types.Struct, *types.Array:
+				case *types.Slice, *types.Interface:
+					sub = And(Ge(mk("efld", IntSort, a), IntLit(100000)), mk("isemb", BoolSort, a), sub)
+				case *types.Basic:
+					if m.typ.Underlying().(*types.Basic).Info()&types.IsString != 0 {
+						sub = And(Ge(mk("efld", IntSort, a), IntLit(100000)), mk("isemb", BoolSort, a), sub)
+					} else {
+						sub = False
+					}
+				case *types.Pointer, *types.Map, *types.Chan, *types.Signature:
+					sub = False
+				}
+			}
 			if m.guard != nil {
-				cellMods = append(cellMods, And(m.guard, Or(Eq(a, m.addr), Eq(par(a), m.addr))))
+				cellMods = append(cellMods, And(m.guard, Or(Eq(a, m.addr), sub)))
 			} else {
-				cellMods = append(cellMods, Eq(a, m.addr), Eq(par(a), m.addr))
+				cellMods = append(cellMods, Eq(a, m.addr), sub)
 			}
 		case "fields":
 			c := Or(Eq(par(a), m.addr), Eq(par(par(a)), m.addr), Eq(par(par(par(a))), m.addr))
